@@ -132,6 +132,19 @@ Definition dup_arg (e : expr) : bool :=
   | _ => false
   end.
 
+(* ---------- nilValReturn (nilValReturn_checker.go): `if x == nil { return .., x, .. }` ----------
+   The statement shape is input data (the fragment has no statements and no nil): whether the if body is a
+   single return, the condition's operator is ==, its right operand is spelled nil; the left operand and the
+   returned expressions as terms (None: outside the fragment, e.g. `nil`, `false`). *)
+Record nvr_shape := {
+  nvr_single_return : bool; nvr_op_is_eq : bool; nvr_y_is_nil : bool;
+  nvr_x : expr; nvr_results : list (option expr) }.
+Definition nil_val_return (s : nvr_shape) : bool :=
+  nvr_single_return s && nvr_op_is_eq s && sef_typed (nvr_x s) && nvr_y_is_nil s &&
+  existsb (fun r => match r with Some e => expr_eqb (nvr_x s) e | None => false end) (nvr_results s).
+Definition nil_val_return_msgs (s : nvr_shape) : list string :=
+  if nil_val_return s then ["returned expr is always nil; replace " ++ print_expr (nvr_x s) ++ " with nil"] else [].
+
 (* ---------- caseOrder on type switches ---------- *)
 (* The type lattice is input data: every case entry is (type id, kind); [impl t i] is what
    types.Implements answers for (type t, interface i), also for t = the untyped nil type. *)
